@@ -17,8 +17,8 @@
 
 #include <aws/common/thread.h>
 
-#define NSLOT 64
-#define MAXOPS 160
+#define NSLOT 320
+#define MAXOPS 900
 struct blk {
     uint8_t *p;
     size_t n;
@@ -220,7 +220,7 @@ static void parse_ops(struct prog *pg, char **save) {
         strncpy(pg->ops[pg->nops++], o, 23);
     }
 }
-#ifdef VS_TSAN
+#if defined(VS_TSAN) || defined(VH_NO_ASAN)
 static int __lsan_do_recoverable_leak_check(void) {
     return 0;
 }
